@@ -352,6 +352,9 @@ def run(rep, prop, extra_configs=None, sample_mod=None):
             sample_mod = 16 if rep.tier == 'quick' else 8
         make = make_harness_factory(prop, rep.tier, rep.seed, sample_mod)
         acc = common.explore_configs(cfgs, make, split_depth=5)
+        broken = dict(common.pop_config_errors())
+        for i, msg in broken.items():
+            rep.error('configuration %d inconclusive: %s' % (i, msg[:300]))
     finally:
         GF.restore_queue_validation_errors(saved)
     rep.bounds = dict(
@@ -372,6 +375,8 @@ def run(rep, prop, extra_configs=None, sample_mod=None):
                 allvio.append(v)
             if r['diff']:
                 diffs.append(r['diff'])
+        if i in broken:
+            continue
         if c['sc'] == 'Q' and c['prs'] and not c['opts'].get('missing') and not any(
                 r['out'] == 'Merged' and r['moved'] for _, r in results):
             rep.error('vacuity: no merging path in config %s' % name)
